@@ -30,11 +30,11 @@ ASSUMPTIONS = [
     "node identity is ambiguous for CPython-shared scalars in regime N (sound but weaker); regime U makes leaves unique",
     "collectors and keyword searches are outside this property's fragment",
 ]
-REACH = [("yamlpath/processor.py", 811, 1260, "key/index/slice/anchor handlers"),
-         ("yamlpath/processor.py", 1311, 1512, "search handler"),
-         ("yamlpath/processor.py", 1833, 2349, "traversal / match-all / required driver"),
-         ("yamlpath/processor.py", 2351, 2470, "optional driver (existing paths)"),
-         ("yamlpath/common/searches.py", 23, 123, "Searches.search_matches")]
+REACH = [("yamlpath/processor.py", "_get_nodes_by_key,_get_nodes_by_index,_get_nodes_by_anchor", "key/index/slice/anchor handlers"),
+         ("yamlpath/processor.py", "_get_nodes_by_search", "search handler"),
+         ("yamlpath/processor.py", "_get_nodes_by_traversal,_get_nodes_by_match_all,_get_nodes_by_match_all_filtered,_get_nodes_by_match_all_unfiltered,_get_required_nodes", "traversal / match-all / required driver"),
+         ("yamlpath/processor.py", "_get_optional_nodes", "optional driver"),
+         ("yamlpath/common/searches.py", "search_matches", "Searches.search_matches")]
 EXHAUSTIVE_NOTE = "documents <=3 nodes x paths <=2 segments over the reduced vocabulary (thorough tier only)"
 SIZES = {"quick": dict(grid_stride=4, rnd=240000), "thorough": dict(grid_stride=1, rnd=2500000)}
 REQUIRED_COUNTERS = ["model_decided", "compared_required"]
